@@ -573,6 +573,9 @@ class Explorer:
                 return self
             prefix = self.frontier.pop()
             self._one(prefix)
+            if len(st.inconclusive) >= 20:
+                st.inconclusive.append(f"{self.unit}: exploration stopped after 20 inconclusive paths")
+                return self
         self.exhaustive = not st.inconclusive
         return self
 
